@@ -53,11 +53,12 @@ type listenerT struct {
 }
 
 type busWorld struct {
-	bus     *minibus.Bus
-	gs      *gates
-	senders []*senderT
-	lis     []*listenerT
-	curK    int
+	bus      *minibus.Bus
+	gs       *gates
+	senders  []*senderT
+	lis      []*listenerT
+	curK     int
+	lockWait bool // a watcher was seen waiting for the lock held by a sender
 }
 
 func (w *busWorld) startSender(i int) *senderT {
@@ -131,6 +132,8 @@ func (w *busWorld) observe(d []ginfo) []int {
 			st = 1
 		case at == "bus.send.collect":
 			st = 2
+		case at == "bus.listener.send.locked":
+			st = 4
 		case s.incall:
 			st = 3
 		}
@@ -154,6 +157,7 @@ func (w *busWorld) observe(d []ginfo) []int {
 				ws = 1
 			case hasGID(d, l.wgid):
 				ws = 2
+				w.lockWait = true
 			default:
 				ws = 3
 			}
@@ -204,9 +208,9 @@ func (a bact) coq() string {
 // busScript runs one scripted case on a fresh bus.
 func (g *gen) busScript(idx int) error {
 	r := g.r
-	maxL, maxS, maxLen := 3, 2, 26
+	maxL, maxS, maxLen := 3, 2, 32
 	if g.tier == "thorough" {
-		maxL, maxS, maxLen = 8, 3, 40
+		maxL, maxS, maxLen = 8, 3, 50
 	}
 	nS := r.Range(1, maxS)
 	wantL := r.Range(0, maxL)
@@ -270,7 +274,7 @@ func (g *gen) busScript(idx int) error {
 		}
 		for k, l := range w.lis {
 			l.mu.Lock()
-			if !l.reg {
+			if !l.reg && l.lg.at() != "" {
 				cs = append(cs, cand{bact{"stepL", k}, 35})
 			}
 			if l.woken && l.wg.at() != "" {
@@ -522,6 +526,10 @@ func (g *gen) busScript(idx int) error {
 		}
 	}
 	tags[fmt.Sprintf("listeners-%d", len(w.lis))] = true
+	if w.lockWait {
+		tags["stop-waits-for-reader"] = true
+		nontrivial = true
+	}
 	tl := []string{"bus-script"}
 	for t := range tags {
 		tl = append(tl, t)
